@@ -142,6 +142,12 @@ func (s *JSchema) AddType(name string, sc schema.Schema) (err error) {
 			return errs.ErrLoadError.F(err)
 		}
 
+		if typ.Inner.RootNode() == nil {
+			// Without this the checker dereferences the missing root node and the
+			// caller gets a bare "Runtime Failure".
+			return kit.NewJSchemaError(typ.File, errs.ErrEmptyType.F(name))
+		}
+
 		// Positions of errors found inside the type refer to the type's own text.
 		s.Inner.AddNamedType(name, typ.Inner, typ.File, 0)
 		s.UserTypeCollection[name] = typ
